@@ -20,6 +20,11 @@ func TestMain(m *testing.M) {
 func runScenario(sc *Scenario, prop string) (*stats, error) {
 	w := newWorld(sc, map[string]bool{prop: true})
 	err := w.run()
+	if err == nil && prop == "C14" {
+		if perr := projectionCheck(sc, w); perr != nil {
+			err = perr
+		}
+	}
 	return &w.st, err
 }
 
